@@ -2156,8 +2156,7 @@ static echs_iobuf_t bufs[MAX_CONNS];
 static struct echs_conn_s*
 make_conn(void)
 {
-	int i = ffs(free_conns & 0xffffffffU)
-		?: ffs(free_conns >> 32U & 0xffffffffU);
+	int i = __builtin_ffsll(free_conns);
 
 	if (LIKELY(i-- > 0)) {
 		/* toggle bit in free conns */
